@@ -43,6 +43,8 @@ DEFAULT_OPTS = {
     "retype_to_dir": True,
     "rename_full_dirs": True,
     "renames": True,
+    "rename_chmod": True,  # a rename may flip the exec bit with unchanged text
+    "reuse_paths": False,  # rename X away / delete non-empty dir X and add a NEW directory at X
     "swap_full_dirs": True,
     "neg_half_tz": True,
     "inside_links": False,  # symlink targets never leave the directory of the link
@@ -265,6 +267,35 @@ def gen_spec(rng, mh, rid, parents, ts, opts, nchanges=None, merge_tree=None):
         files = sorted(p for p, v in tree.items() if v[1] == FILE and p not in touched)
         links = sorted(p for p, v in tree.items() if v[1] == LINK and p not in touched)
         dirs = sorted(p for p, v in tree.items() if v[1] == DIR and p and p not in touched)
+        if o["reuse_paths"] and o["renames"] and rng.random() < 0.22:
+            # a NEW directory (new file id) takes a path that this revision frees
+            mh.nfid += 1
+            nfid = f"{rid}-f{mh.nfid}"
+            if rng.random() < 0.6:
+                cand = [p for p in files + dirs if o["rename_full_dirs"] or not any(q != p and inside(p, q) for q in tree)]
+                cand = [p for p in cand if not any(inside(p, t) or inside(t, p) for t in touched if t)]
+                new = free_name()
+                if not cand or new is None:
+                    continue
+                p = rng.choice(cand)
+                if inside(p, new):
+                    continue
+                do(["rename", p, new])
+                touched.update((p, new))
+            else:
+                cand = [p for p in dirs if any(q != p and inside(p, q) for q in tree) and not any(inside(p, t) or inside(t, p) for t in touched if t)]
+                if not cand:
+                    continue
+                p = rng.choice(cand)
+                do(["remove", p])
+                touched.add(p)
+            do(["add", p, nfid, DIR, None, False])
+            if rng.random() < 0.6:
+                mh.nfid += 1
+                child = p + "/" + rng.choice(NAMES)
+                do(["add", child, f"{rid}-f{mh.nfid}", FILE, _text(rng, mh, o), bool(o["exec"] and rng.random() < 0.3)])
+                touched.add(child)
+            continue
         r = rng.random()
         if r < 0.32 or not files:
             path = free_name()
@@ -310,8 +341,12 @@ def gen_spec(rng, mh, rid, parents, ts, opts, nchanges=None, merge_tree=None):
                 continue
             do(["rename", p, new])
             touched.update((p, new))
-            if tree[new][1] == FILE and rng.random() < 0.3:
-                do(["modify", new, _text(rng, mh, o, tree[new][2])])
+            if tree[new][1] == FILE:
+                r3 = rng.random()
+                if r3 < 0.3:
+                    do(["modify", new, _text(rng, mh, o, tree[new][2])])
+                elif r3 < 0.55 and o["exec"] and o["rename_chmod"]:
+                    do(["chmod", new, not tree[new][3]])  # exec flip only, same text
         elif r < 0.93 and o["swap"] and o["renames"]:
             cand = files + links + dirs
             if len(cand) < 2:
@@ -361,7 +396,7 @@ def gen_spec(rng, mh, rid, parents, ts, opts, nchanges=None, merge_tree=None):
     return spec
 
 
-def gen_history(rng, n, opts=None, tag="m", merges=True, ts0=1_500_000_000):
+def gen_history(rng, n, opts=None, tag="m", merges=True, ts0=1_500_000_000, force_side=None, dead_head=False):
     """A history of n mainline revisions `tag-1..n`; side lines `tag<k>s-i` fork from earlier
     revisions and are merged back.  Returns (Hist, specs in topological order)."""
     mh = Hist()
@@ -370,11 +405,14 @@ def gen_history(rng, n, opts=None, tag="m", merges=True, ts0=1_500_000_000):
     nside = 0
     pending = None  # side tip to be merged by the next mainline revision
     for i in range(1, n + 1):
-        if merges and prev and pending is None and rng.random() < 0.3:
+        forced = bool(force_side and force_side["at"] == i and prev)
+        if forced and pending is not None:
+            pending = None  # (stays an unmerged head)
+        if (merges and prev and pending is None and rng.random() < 0.3) or forced:
             nside += 1
-            fork = rng.choice(mh.lefthand(prev))
+            fork = rng.choice(mh.lefthand(prev)[-2:]) if forced else rng.choice(mh.lefthand(prev))
             sp = fork
-            for j in range(1, rng.choice([1, 1, 2, 3]) + 1):
+            for j in range(1, (force_side["len"] if forced else rng.choice([1, 1, 2, 3])) + 1):
                 rid = f"{tag}{nside}s-{j}"
                 specs.append(gen_spec(rng, mh, rid, [sp], ts0 + len(mh.revs) * 10 + rng.choice([0, 0, 1, 7]), opts))
                 sp = rid
@@ -382,13 +420,28 @@ def gen_history(rng, n, opts=None, tag="m", merges=True, ts0=1_500_000_000):
         rid = f"{tag}-{i}"
         parents = [prev] if prev else [None]
         merge_tree = None
-        if pending is not None and rng.random() < 0.7:
+        if pending is not None and (forced or rng.random() < 0.7):
             parents.append(pending)
             merge_tree = mh.tree(pending)
             pending = None
         specs.append(gen_spec(rng, mh, rid, parents, ts0 + len(mh.revs) * 10 + rng.choice([0, 0, 3]), opts, merge_tree=merge_tree))
         prev = rid
+    if dead_head and prev and not (set(mh.revs) - mh.ancestry(prev)):
+        # a line that is never merged: its revisions live in the repository only
+        nside += 1
+        sp = rng.choice(mh.lefthand(prev))
+        for j in range(1, rng.choice([1, 2]) + 1):
+            rid = f"{tag}{nside}s-{j}"
+            specs.append(gen_spec(rng, mh, rid, [sp], ts0 + len(mh.revs) * 10, opts))
+            sp = rid
     return mh, specs
+
+
+def heads_outside(mh, tip):
+    """Revisions that are not ancestors of `tip` and nobody's parent (unmerged heads)."""
+    anc = mh.ancestry(tip)
+    parents = {p for r in mh.revs.values() for p in r["parents"]}
+    return sorted(r for r in mh.revs if r not in anc and r not in parents)
 
 
 # ------------------------------------------------------------------------------------
